@@ -107,7 +107,16 @@ FirstBad(rec, k) ==
        IF v = "ok" THEN FirstBad(rec, k + 1) ELSE v
 VerdictAdjust(rec) == FirstBad(rec, 1)
 
-Verdict(rec) == IF rec.kind = "merge" THEN VerdictMerge(rec)
+\* the two DFXP writers that merge (SinglePositioningDFXPWriter, LegacyDFXPWriter), however they are
+\* constructed: rec.langs[k] = [in |-> the language's captions, ps |-> number of <p> in its div]
+VerdictMergeWriter(rec) ==
+  IF ~rec.ok THEN "MergingWriterFailed"
+  ELSE IF Len(rec.divs) # Len(rec.langs) THEN "MergingWriterLanguageCount"
+  ELSE IF \E k \in 1..Len(rec.langs) : rec.divs[k] # Len(MergeRuns(rec.langs[k])) THEN "WriterDidNotMergeConcurrentCaptions"
+  ELSE "ok"
+
+Verdict(rec) == IF rec.kind = "mergewriter" THEN VerdictMergeWriter(rec) ELSE
+                IF rec.kind = "merge" THEN VerdictMerge(rec)
                 ELSE IF rec.kind = "adjust" THEN VerdictAdjust(rec)
                 ELSE "UnknownRecordKind"
 =============================================================================
